@@ -130,6 +130,7 @@ def tasks(tier):
     # exception escape while the admission is announced: still exactly one record
     PROBE = {"threshold": 1, "window": 8, "recovery": 2, "trip_on": ["T", "U", "P"],
              "pre": [("fail", "T"), ("tick", 2)]}
+    CLOSED1 = {"threshold": 1, "window": 8, "recovery": 2, "trip_on": ["T", "U", "P"]}
     for e, site, t in itertools.product(WITH_RETRY + NO_RETRY + ["RetryPolicy.call", "Policy.context"],
                                         ["metric", "log"],
                                         ["KeyboardInterrupt", "CancelledError", "SystemExit"]):
@@ -137,6 +138,13 @@ def tasks(tier):
                    breaker=PROBE, faults=[(site, 0, t)])
         out.append({"family": "records-admission-hook-fault", "cfg": cfg, "entry": e, "bound": 0,
                     "ncalls": 1})
+        # ... or while a later event is announced: a retry event, the terminal event, the
+        # circuit_closed / circuit_opened event that follows the call's own record
+        for idx, brk in itertools.product([1, 2, 3], [PROBE, CLOSED1]):
+            cfg = dict(M=2 if e not in NO_RETRY else 1, alphabet=["ok", "x:T"], max_unknown=None,
+                       breaker=brk, faults=[(site, idx, t)])
+            out.append({"family": "records-event-hook-fault", "cfg": cfg, "entry": e, "bound": 0,
+                        "ncalls": 1})
     # call sequences sharing one breaker (rejections, probes)
     n = 2 if tier == "quick" else 3
     for e, thr in itertools.product(WITH_RETRY[:4], [1, 2]):
@@ -215,6 +223,12 @@ def _monitor_trace(trace, cfg):
                               f"after {[o.label for o in call.ops]}: breaker got {(rec[1], rec[2])}"
                               f", the classifier calls that exception UNKNOWN"))
         if fin.nested or fin.faulted or (fin.last is not None and fin.last.kind in ("coe", "genexit")):
+            continue
+        if any(r[0] == "fault" and r[1] in ("metric", "log")
+               and r[3] in ("KeyboardInterrupt", "CancelledError", "SystemExit") for r in call.records):
+            # an observability hook let a cancellation-type exception escape: the call ends as
+            # cancelled, but its own outcome may have been reported already (only the count is
+            # judged)
             continue
         delivered_ok = (end[1] == "ret") or (end[1] == "outcome" and end[2])
         if delivered_ok:
